@@ -120,6 +120,10 @@ func NewLength(a *AttributeExpr, r *ExampleGenerator) int {
 		if count > maxLength {
 			count = maxLength
 		}
+		if count < 0 {
+			// MaxLength smaller than the random offset subtracted above.
+			count = 0
+		}
 		return count
 	}
 	return r.ArrayLength()
